@@ -755,6 +755,90 @@ def op_evalctx(op: dict) -> dict:
     return {"k": "evalctx", "err": "RuntimeError" if raised else None, "digest": _sha(json.dumps(obs).encode()), **obs}
 
 
+def op_header(op: dict) -> dict:
+    """to_model_proto header glue: a main function calling sub-functions of custom domains; observes the inputs of the
+    header computation on the real objects and the header of the emitted model."""
+    import onnx
+
+    from harness import scriptgen
+
+    hdr = "from onnxscript.values import Opset\nHCUST = Opset('cust.dom', 2)\n"
+    for i, sf in enumerate(op["subs"]):
+        body = f"{sf['std']}.Neg(x)" if sf["std"] else (f"hs{sf['calls']}(x)" if sf.get("calls") is not None else "HCUST.Foo(x)")
+        hdr += f"HD{i} = Opset({sf['domain']!r}, {sf['version']})\n@script(HD{i}, default_opset={sf['std'] or 'op'})\ndef hs{i}(x):\n    return {body}\n\n"
+    m = op["main"]
+    expr = "x"
+    for i in m["calls"]:
+        expr = f"hs{i}({expr})"
+    if m["std"]:
+        expr = f"{m['std']}.Abs({expr})"
+    elif not m["calls"]:
+        expr = "HCUST.Foo(x)"
+    src = f"@script(Opset({m['domain']!r}, {m['version']}), default_opset=op)\ndef hmain(x: FLOAT[3]):\n    return {expr}\n"
+    fn, err, modname = scriptgen.compile_functions([("hmain", src)], header_extra=hdr)
+    try:
+        if err:
+            return {"k": "header", "err": err["hmain"][0], "digest": "ERR:" + err["hmain"][0]}
+        f = fn["hmain"]
+        gi = [[d, int(v)] for d, v in f.function_ir.graph.opset_imports.items()]
+        funcs = []
+        for sub in f.function_ir.get_called_functions().values():
+            fi = sub.function_ir
+            std = fi.opset_imports.get("")
+            funcs.append([fi.domain, int(fi.meta.get("opset_version", 1)), None if std is None else int(std)])
+        kw = {k: int(v) for k, v in op.get("kw", {}).items()}
+        p = f.to_model_proto(**kw)
+        table = {int(k[1]): int(v) for k, v in onnx.helper.OP_SET_ID_VERSION_MAP.items() if k[0] == "ai.onnx"}
+        obs = {
+            "graph_imports": gi, "funcs": funcs,
+            "imports": [[o.domain, int(o.version)] for o in p.opset_import], "ir_version": int(p.ir_version),
+            "latest": int(onnx.defs.onnx_opset_version()), "table": sorted(table.items()), "max_ir": max(table.values()),
+        }
+        return {"k": "header", "err": None, "digest": _sha(p.SerializeToString()), **obs}
+    finally:
+        scriptgen.release(modname)
+
+
+def _fp(obj, depth=0) -> str:
+    import re
+
+    def short(v):
+        t = type(v).__name__
+        try:
+            return f"{t}#{len(v)}"
+        except Exception:  # noqa: BLE001
+            return t
+
+    if isinstance(obj, dict):
+        body = sorted(re.sub(r"0x[0-9a-f]+", "0x", repr(k)) + ":" + short(v) for k, v in obj.items())
+    elif isinstance(obj, (list, tuple)):
+        body = [short(v) for v in obj]
+    elif isinstance(obj, (set, frozenset)):
+        body = sorted(re.sub(r"0x[0-9a-f]+", "0x", repr(k)) for k in obj)
+    elif hasattr(obj, "__dict__") and depth == 0:
+        body = sorted(f"{k}={_fp(v, 1)}" for k, v in vars(obj).items() if not k.startswith("__"))
+    else:
+        body = [short(obj)]
+    return _sha(json.dumps(body).encode()) + f"#{len(body)}"
+
+
+def op_gfp(op: dict) -> dict:
+    """fingerprints of the process-wide objects listed by the generated table (file, dotted name)"""
+    import importlib
+
+    out = {}
+    for file, name in op["rows"]:
+        mod = importlib.import_module(file[:-3].replace("/", "."))
+        try:
+            obj = mod
+            for part in name.split("."):
+                obj = getattr(obj, part)
+            out[f"{file}:{name}"] = _fp(obj)
+        except Exception as e:  # noqa: BLE001
+            out[f"{file}:{name}"] = "ERR:" + type(e).__name__
+    return {"k": "gfp", "err": None, "digest": _sha(json.dumps(out, sort_keys=True).encode()), "fp": out}
+
+
 OPS = {
     "script": op_script,
     "model": op_model,
@@ -765,6 +849,8 @@ OPS = {
     "conv_reuse": op_conv_reuse,
     "kwseq": op_kwseq,
     "evalctx": op_evalctx,
+    "gfp": op_gfp,
+    "header": op_header,
 }
 
 
@@ -776,8 +862,16 @@ def run_request(req: dict) -> dict:
     for op in req["ops"]:
         try:
             results.append(OPS[op["k"]](op))
-        except Exception as e:  # noqa: BLE001  (harness bug inside the worker: reported, judged as infra)
-            results.append({"k": op.get("k"), "infra": traceback.format_exc()[-800:], "err": type(e).__name__, "digest": "INFRA"})
+        except Exception as e:  # noqa: BLE001
+            tb = traceback.extract_tb(e.__traceback__)
+            last = tb[-1].filename if tb else ""
+            if "/harness/" in last or not tb:
+                # harness bug inside the worker: reported, judged as infrastructure
+                results.append({"k": op.get("k"), "infra": traceback.format_exc()[-800:], "err": type(e).__name__, "digest": "INFRA"})
+            else:
+                # the implementation raised where the op wrapper did not expect it: a behavioural result like any other
+                results.append({"k": op.get("k"), "err": type(e).__name__, "digest": "ERR:" + type(e).__name__,
+                                "unexpected": traceback.format_exc()[-600:]})
     rep = {"id": req.get("id"), "seed": os.environ.get("PYTHONHASHSEED"), "results": results}
     if req.get("monitor"):
         if MON.cur is not None:
